@@ -659,6 +659,7 @@ def _reach_helper_ok(h, facts, res):
         return _helper_cache[h.path][1]
     du = du_of(h)
     ok = True
+    gave_up = []
     n_true = 0
     # locals that flow into the return value
     rl = set()
@@ -696,6 +697,28 @@ def _reach_helper_ok(h, facts, res):
                     ok = False
                 res.instance("W1", "%s yields true under index == 1 (%s) && parent is None (%s)" % (h.path, g_idx, g_par), h.loc(h.blocks[d.block].stmts[d.idx].line))
             elif t[0] == "const" and t[1] == "bool":
+                # W1b: `false` is the answer of a broken chain only - a revision or a parent that is not there. Any other reason to give
+                # up (a bound on the length of the chain, a set of "closed" revisions) makes a revision with a complete chain of
+                # ancestors down to a root no leaf, and its object loses a (possibly winning) leaf.
+                def _chain_lit(lit):
+                    if lit.kind == "variant":
+                        return any(contains_call(lit.term, n_) for n_ in ("get", "get_parent", "get_key_value", "get_mut"))
+                    if lit.kind == "call" and callee_name(lit.term) in ("is_none", "is_some", "contains_key") and lit.term[2]:
+                        return True
+                    if lit.kind == "cmp":
+                        return any(y[0] == "const" and y[2] == 1 and contains_call(x, "index")
+                                   for x, y in ((lit.term[2], lit.term[3]), (lit.term[3], lit.term[2])))
+                    return False
+                from ..conds import unaccepted as _un
+                ex_ = [repr(l_) for l_ in _un(lits_of(h, d.block, facts), _chain_lit)]
+                res.instance("W1", "%s yields false only where the chain of ancestors is broken (other reasons: %s)" % (h.path, ex_ or "none"),
+                             h.loc(h.blocks[d.block].stmts[d.idx].line))
+                if ex_:
+                    ok = False
+                    res.violation("W1", "%s|gives-up" % h.path,
+                                  "%s answers `not connected to a root` under %s: a revision whose ancestors are all present down to a root is "
+                                  "a leaf whatever the length or the contents of its chain" % (h.path, ex_[:2]), h.loc(h.blocks[d.block].stmts[d.idx].line))
+                    gave_up.append(1)
                 continue
             else:
                 # copied from the cache (`Some(&v) = cache.get(..)`) or from another tracked local
@@ -708,7 +731,7 @@ def _reach_helper_ok(h, facts, res):
     if n_true < 1:
         ok = False
     _helper_cache[h.path] = (facts, ok)
-    if not ok:
+    if not ok and not gave_up:
         res.violation("W1", "%s|root-test" % h.path, "%s can yield true without `index == 1 && parent is None` (or a cached result)" % h.path, h.loc())
     return ok
 
